@@ -137,6 +137,22 @@ type history struct {
 	Name     string    `json:"name"`
 	Contents []content `json:"contents"`
 	Steps    []step    `json:"steps"`
+	// NoFaults: run fault-free only (very long histories)
+	NoFaults bool `json:"noFaults,omitempty"`
+}
+
+// longHistory is a Composition that lives long: a pipeline stamps a build annotation on it 125
+// times (each stamp is new content, hence a new revision; revisions are never collected), then it
+// is reverted to two earlier builds.
+func longHistory() history {
+	sp := specPool()
+	h := history{Name: "long-lived-125-builds", NoFaults: true}
+	for i := 0; i < 125; i++ {
+		h.Contents = append(h.Contents, content{Labels: labelPool[1], Annotations: map[string]string{"ex.org/build": fmt.Sprintf("%03d", i)}, Spec: sp[0]})
+		h.Steps = append(h.Steps, ed(i))
+	}
+	h.Steps = append(h.Steps, ed(0), ed(60), ed(124))
+	return h
 }
 
 func (h *history) hasRevert() bool {
